@@ -87,21 +87,25 @@ where
         &mut self,
         msg: MultiSet<S>,
     ) -> Result<(), BulkMutationError<S::Error>> {
-        let mut valid_entries = Vec::with_capacity(msg.docs.len());
-
         // Only select docs to be inserted if they're able to be applied.
-        let docs = msg
+        let mut docs = msg
             .docs
             .into_iter()
             .filter(|doc| self.state.will_apply(doc.id(), doc.last_updated()))
-            .map(|doc| {
-                valid_entries.push((doc.id(), doc.last_updated()));
-                doc
-            });
+            .collect::<Vec<_>>();
+
+        // Only the newest version of a document can win, writing an older version of the
+        // same ID afterwards would leave storage behind the state.
+        retain_newest_per_id(&mut docs, |doc| (doc.id(), doc.last_updated()));
+
+        let mut valid_entries = docs
+            .iter()
+            .map(|doc| (doc.id(), doc.last_updated()))
+            .collect::<Vec<_>>();
 
         let res = self
             .storage
-            .multi_put_with_ctx(&self.name, docs, msg.ctx.as_ref())
+            .multi_put_with_ctx(&self.name, docs.into_iter(), msg.ctx.as_ref())
             .await;
 
         // Ensure the insertion order into the set is correct.
@@ -155,19 +159,25 @@ where
         &mut self,
         msg: MultiDel<S>,
     ) -> Result<(), BulkMutationError<S::Error>> {
-        let mut valid_entries = Vec::with_capacity(msg.docs.len());
-
         // Only select docs to be inserted if they're able to be applied.
-        let docs = msg
+        let mut docs = msg
             .docs
             .into_iter()
             .filter(|doc| self.state.will_apply(doc.id, doc.last_updated))
-            .map(|doc| {
-                valid_entries.push((doc.id, doc.last_updated));
-                doc
-            });
+            .collect::<Vec<_>>();
 
-        let res = self.storage.mark_many_as_tombstone(&self.name, docs).await;
+        // Only the newest tombstone of a document can win, see `on_multi_set`.
+        retain_newest_per_id(&mut docs, |doc| (doc.id, doc.last_updated));
+
+        let mut valid_entries = docs
+            .iter()
+            .map(|doc| (doc.id, doc.last_updated))
+            .collect::<Vec<_>>();
+
+        let res = self
+            .storage
+            .mark_many_as_tombstone(&self.name, docs.into_iter())
+            .await;
 
         // Ensure the insertion order into the set is correct.
         valid_entries.sort_by_key(|entry| entry.1);
@@ -246,6 +256,29 @@ where
     async fn on_last_updated(&self, _msg: LastUpdated) -> HLCTimestamp {
         self.change_timestamp.load()
     }
+}
+
+/// Keeps only the newest entry of each document ID (the first one if several entries
+/// of an ID share the newest timestamp), preserving the order of the remaining entries.
+fn retain_newest_per_id<T>(
+    docs: &mut Vec<T>,
+    id_and_ts: impl Fn(&T) -> (datacake_crdt::Key, HLCTimestamp),
+) {
+    let mut newest = std::collections::HashMap::with_capacity(docs.len());
+    for (position, doc) in docs.iter().enumerate() {
+        let (id, ts) = id_and_ts(doc);
+        let entry = newest.entry(id).or_insert((ts, position));
+        if entry.0 < ts {
+            *entry = (ts, position);
+        }
+    }
+
+    let mut position = 0;
+    docs.retain(|doc| {
+        let keep = newest[&id_and_ts(doc).0].1 == position;
+        position += 1;
+        keep
+    });
 }
 
 #[cfg(test)]
